@@ -290,9 +290,9 @@ func (p *Prop) Decode(v interface{}) error {
 type PropFind struct {
 	XMLName  xml.Name  `xml:"DAV: propfind"`
 	Prop     *Prop     `xml:"prop,omitempty"`
-	AllProp  *struct{} `xml:"allprop,omitempty"`
+	AllProp  *struct{} `xml:"DAV: allprop,omitempty"`
 	Include  *Include  `xml:"include,omitempty"`
-	PropName *struct{} `xml:"propname,omitempty"`
+	PropName *struct{} `xml:"DAV: propname,omitempty"`
 }
 
 func xmlNamesToRaw(names []xml.Name) []RawXMLValue {
